@@ -139,6 +139,14 @@ namespace
     // -------------------------------------------------------------------------------------------
     // push scenario
     // -------------------------------------------------------------------------------------------
+    // start / stop order of the root graph's nodes ("LS start <idx>", "LS stop <idx>")
+    struct OrderObserver : LifecycleObserver
+    {
+        Trace *tr{nullptr};
+        void on_before_start_node(const NodeView &n) override { tr->line("LS start " + std::to_string(n.node_index())); }
+        void on_before_stop_node(const NodeView &n) override { tr->line("LS stop " + std::to_string(n.node_index())); }
+    };
+
     void run_push(const std::map<std::string, std::string> &kv, Trace &tr)
     {
         const std::string policy = gets(kv, "policy", "queue");
@@ -243,6 +251,9 @@ namespace
         GraphExecutorBuilder eb;
         eb.graph_builder(std::move(builder)).mode(GraphExecutorMode::RealTime).start_time(start_time).end_time(start_time + TimeDelta{end_ms * 1000});
         if (slice_us > 0) eb.max_wait_slice(TimeDelta{slice_us});
+        OrderObserver order_obs;
+        order_obs.tr = &tr;
+        eb.add_lifecycle_observer(&order_obs);
         auto executor = eb.make_executor();
         auto view     = executor.view();
 
